@@ -880,7 +880,6 @@ def t_num_templates(F, R, reqs=("Exact", "PreferLower", "PreferHigher")):
         c = a[1]
         rec["rows"].append((c.fields["lhs"], c.fields["constraint_type"], c.fields["rhs"]))
         return ()
-    I.models["transformers::bounds::BoundsAnalyzer::bounds_of"] = m_bounds
     def m_merge(sign):
         def f(I_, a):
             for n_, v_ in a[1].c.items():
@@ -907,7 +906,9 @@ def t_num_templates(F, R, reqs=("Exact", "PreferLower", "PreferHigher")):
         R.fn(p)
 
     def fresh_ctx():
-        return V(L + "Linearizer", fields={"abs_count": 0, "min_count": 0, "max_count": 0, "bounds": V("BOUNDS"), "domain": V("DOMAIN")})
+        # the bounds oracle is the crate's own BoundsAnalyzer::bounds_of over a table of variable intervals
+        an = V("transformers::bounds::BoundsAnalyzer", fields={"variable_bounds": LV([(n_, V(BND, fields={"lower": lo_, "upper": hi_})) for n_, (lo_, hi_) in rec["bounds"].items()]), "tolerance": 1e-9, "reached_iteration_limit": False, "detected_infeasible": False})
+        return V(L + "Linearizer", fields={"abs_count": 0, "min_count": 0, "max_count": 0, "bounds": an, "domain": V("DOMAIN")})
 
     def var(n):
         return V(c10.EXP + "::Variable", [Rp([n])])
@@ -1062,7 +1063,7 @@ def t_num_templates(F, R, reqs=("Exact", "PreferLower", "PreferHigher")):
                 ps = [a0 / b0, a1 / b0]
                 return (min(ps), max(ps))
         return bounds_of_exp(e)
-    I.models["transformers::bounds::BoundsAnalyzer::bounds_of"] = lambda I_, a: V(BND, fields=dict(zip(("lower", "upper"), bounds_of_nested(a[1]))))
+    R.fn("transformers::bounds::BoundsAnalyzer::bounds_of")
     nested = [
         ("abs(max)<=0", ab(mx(var("x"), var("y"))), {"x": (-5.0, -1.0), "y": (-4.0, -2.0)}, lambda x, y: abs(max(x, y)), lambda x, y: [max(x, y)]),
         ("abs(min)<=0", ab(mn(var("x"), var("y"))), {"x": (-5.0, -1.0), "y": (-4.0, -2.0)}, lambda x, y: abs(min(x, y)), lambda x, y: [min(x, y)]),
